@@ -32,7 +32,8 @@ def wv(v):
 
 
 def mk(rows, col="v"):
-    idx = pd.DatetimeIndex([BASE + pd.Timedelta(seconds=t) for _, _, t in rows])
+    # epoch seconds -> a second-resolution DatetimeIndex (what pd.to_datetime(..., unit="s") gives in pandas >= 2)
+    idx = pd.DatetimeIndex(pd.to_datetime([946684800 + t for _, _, t in rows], unit="s"))
     df = pd.DataFrame({"v": [float("nan") if v == NAN else float(v) for v, _, _ in rows],
                        "w": [float("nan") if wv(v) == NAN else float(wv(v)) for v, _, _ in rows],
                        "k": pd.Series([KEYS[k] for _, k, _ in rows], dtype=object, index=idx)}, index=idx)
